@@ -33,9 +33,13 @@ def integral_xn_exp_minus_x(n: int, a: float, b: float, alpha: float):
         return _helper_sum_fact_xk(n, u * alpha) * np.exp(-abs(u) * alpha) / aux
 
     if a == -np.inf:
-        return -helper(b)
+        res = -helper(b)
+    elif b == np.inf:
+        res = helper(a)
+    else:
+        res = helper(a) - helper(b)
 
-    if b == np.inf:
-        return helper(a)
-
-    return helper(a) - helper(b)
+    if b <= 0 and n % 2 == 0:
+        # on the negative half-line x^n exp(-alpha|x|) = (-1)^n |x|^n exp(-alpha|x|)
+        res = -res
+    return res
